@@ -5,6 +5,8 @@ See Also:
   - [eolib.protocol._generated.pub][]
 """
 
-from .server import *
-
+# The generated package is imported first, so that its own `server` subpackage does not replace
+# the one below in this namespace.
 from .._generated.pub import *
+
+from .server import *
